@@ -6,6 +6,7 @@ Used in-process (under harness.lib.ostrace.InProcessTracer) and as a subprocess 
 Steps (JSON lists):
   ["create"]                   create_table(root, schema)
   ["reopen"]                   load_table(root)
+  ["sleep", s]                 (self-test of the harness's time limit; never generated)
   ["append", n]                Table.append_records(n rows)              (one data file)
   ["multi", [n1, n2, ...]]     one transaction, one append_data per n    (several data files)
   ["delete", k]                delete_files([k-th live data file])       (manifest rewritten or dropped)
@@ -109,6 +110,8 @@ def run_steps(root: str, steps: List[Any], mark: Callable[[str], None], mutation
                     table = create_table(root, _schema())
                 elif kind == "reopen":
                     table = load_table(root)
+                elif kind == "sleep":            # harness self-test of the time limit only
+                    time.sleep(st[1])
                 else:
                     if table is None:
                         table = load_table(root)
@@ -164,6 +167,8 @@ def run_steps(root: str, steps: List[Any], mark: Callable[[str], None], mutation
                     else:
                         raise ValueError(f"unknown step {st!r}")
             except Exception as e:  # the step failed: recorded, the trace up to here still counts
+                if isinstance(e, MemoryError):
+                    raise
                 res["ok"] = False
                 res["error"] = f"{type(e).__name__}: {e}"[:300]
                 if kind == "create":
